@@ -160,4 +160,13 @@ theorem replay_value_of_ended_hold_lost_violated :
     (reload 11 j).map (·.value) = [none] ∧
     classifyReplay 11 j = [((0, 100), ReplayClass.valueOfEndedHoldLost)] := by decide
 
+/-- `C07:replay:not-admitted` — hold 1 (Count 2) is taken, hold 2 (Count 1) is admitted next to it, then hold 1 is re-locked; deferred
+journalling writes hold 1's two levels BEFORE hold 2's record. The journal means both holds; at the replay hold 2 meets two
+levels and `doLock` refuses it. -/
+theorem replay_not_admitted_violated :
+    let j := [Lk 1 2 0 0 0 99 2 2, Lk 1 2 0 0 0 99 2 2, Lk 2 2 0 0 0 99 1 0]
+    ((recover j).get 0 100 2).isSome = true ∧
+    holdsOf (reload 2 j) = [(1, 2, some 102)] ∧
+    classifyReplay 2 j = [((0, 100), ReplayClass.notAdmitted)] := by decide
+
 end Slock.C07J
